@@ -216,6 +216,7 @@ func checkC05(R *Run) {
 	R.rule("priv-guard", "for every spec row (context K, privilege X, effect classes E) of a registered handler: after deleting the CFG edges on which requester.Authorize(X) is true and the edges that contradict K, no effect site of a class in E is reachable from the handler's entry (effects of callees, closures and goroutines are lifted to the call site)")
 	R.rule("priv-exact", "the set of privilege constants the handler tests on the requester equals the set in its spec rows (no unrelated privilege is demanded, none is missing)")
 	R.rule("ctx-recognised", "every context the spec distinguishes for a handler is actually decided by a recognised test in that handler (IsDir/IsRegular, field presence, item type, sub-field count, account existence, drop box / upload folder)")
+	R.rule("effects-covered", "every class of state-changing or outward effect a handler performs (filesystem, account, news, board, ban, disconnect, transfer grant, transactions to others) is one that the protocol's row(s) for that transaction guard, or one listed as needing no privilege for it")
 	R.rule("authorize-sound", "(*ClientConn).Authorize(i) returns false for a nil account and otherwise exactly Account.Access.IsSet(i)")
 	R.rule("login-name-guard", "in the login sequence a client-supplied display name is stored only on the true edge of Authorize(26 any-name) of that same connection")
 
@@ -342,6 +343,34 @@ func checkC05(R *Run) {
 				R.ok("priv-guard", construct, P.pos(fn.Pos()), fmt.Sprintf("%d effect site(s) unreachable without the privilege", matchedSites))
 			}
 		}
+		// effects-covered: every kind of state-changing / outward effect the handler performs is one the protocol
+		// assigns to this transaction (in some spec row) or one that needs no privilege for it
+		{
+			allowed := map[string]bool{}
+			for _, r := range t.Rules {
+				for _, e := range r.Effects {
+					allowed[e] = true
+				}
+			}
+			for _, e := range freeEffects[reg.Num] {
+				allowed[e] = true
+			}
+			var extra []string
+			for _, st := range sites {
+				for cl := range st.classes {
+					if _, isReader := readerEffectClasses[cl]; isReader {
+						continue
+					}
+					if !allowed[cl] && !effClassMatches(cl, keysOf(allowed)) {
+						extra = append(extra, cl+" ("+st.desc+" at "+P.ipos(st.ins)+")")
+					}
+				}
+			}
+			sort.Strings(extra)
+			R.check(len(extra) == 0, "effects-covered", fmt.Sprintf("%d %s", reg.Num, fname(fn)), P.pos(fn.Pos()),
+				"performs only effect classes the protocol assigns to this transaction",
+				fmt.Sprintf("the handler of transaction %d (%s) performs effects that the protocol neither guards by one of its privileges nor lists as free for this request: %s", reg.Num, t.Name, strings.Join(extra, "; ")))
+		}
 		// ctx-recognised
 		needed := map[string]bool{}
 		for _, r := range t.Rules {
@@ -440,6 +469,26 @@ func checkC05(R *Run) {
 			R.bad("login-name-guard", fname(fn)+": store UserName", P.pos(fn.Pos()), "no store of the client-supplied name found in the login sequence (mechanism moved: rule cannot vouch)")
 		}
 	}
+}
+
+// effects a transaction may have without any privilege (protocol: notifications of one's own state, chat
+// membership traffic, the banner transfer)
+var freeEffects = map[int][]string{
+	108: {"send.others"},
+	114: {"send.others"}, 115: {"send.others"}, 116: {"send.others"}, 120: {"send.others"},
+	121: {"send.others"},
+	212: {"xfer.grant"},
+	304: {"send.others"},
+}
+
+var readerEffectClasses = map[string]bool{"acct.disclose": true, "news.disclose": true, "fs.list": true, "client.disclose": true, "board.disclose": true}
+
+func keysOf(m map[string]bool) []string {
+	var out []string
+	for k := range m {
+		out = append(out, k)
+	}
+	return out
 }
 
 func isOwn(recv, own ssa.Value) bool {
